@@ -4,7 +4,11 @@ Reference-model monitor: every call of neutron_scattering / neutron_sld / atom.n
 by the workload is compared, output by output and wavelength by wavelength, with pvmon.ref.neutron (own table
 reader, documented equations in plain complex arithmetic, own clamped linear interpolation, own masses).
 In-process: a postcondition wrapper on nsf._calculate_scattering, LINE counters for the two branches of
-Neutron.scattering_by_wavelength and for the incoherent clip, floating-point exception monitor."""
+Neutron.scattering_by_wavelength and for the incoherent clip, floating-point exception monitor, and an
+input-immutability monitor (pvmon.ref.neutron.ArgumentGuard) on the five entry points.
+History: the 'buffer' cases pass ONE mutable wavelength/energy object (ndarray or list) to consecutive calls and
+modify it in place between them (refill, rescale, shift, single item, reverse, append), with no other call in
+between; every call is judged by the reference for the values the buffer holds at that moment."""
 import math
 
 from ..statemon import Reach, FPMonitor
@@ -15,12 +19,16 @@ RULE = ('cases: (a) every atom with neutron data as a one-atom compound at three
         'of 1-8 atoms (ordinary, energy-dependent, ions), density log-uniform in (0,25] as density= or natural_density=, '
         'wavelength in [0.05,50] A or the equivalent energy=, scalar or vector, given as dict, string, Formula or atom; '
         '(e) compounds containing an atom without data must give (None,None,None); (f) Ra (tabulated data, element density '
-        'unknown) in compounds of given density. distinct = distinct (sorted atom keys, scalar/vector, energy/wavelength/default, '
+        'unknown) in compounds of given density; (g) buffer reuse: one ndarray or list of 1-7 wavelengths (or energies) passed '
+        'to 2-4 consecutive calls for the same compound (each energy-dependent entry at least once per container kind, alone '
+        'or in a random compound, through neutron_scattering, neutron_sld, .scattering, .sld) and modified in place between '
+        'the calls. distinct = distinct (sorted atom keys, scalar/vector, energy/wavelength/default, '
         'density kind, family); a case is non-trivial when at least seven numbers (or the stated None triple) were compared '
         'with the reference')
 TECHNIQUE = ('runtime monitoring: reference-model monitor (independent table reader + documented equations) over exhaustive '
              'single-atom sweeps and seeded random compounds; in-process postcondition on nsf._calculate_scattering; '
-             'sys.monitoring LINE/entry counters for the table branch, the constant branch and the incoherent clip; numpy FP-exception monitor')
+             'sys.monitoring LINE/entry counters for the table branch, the constant branch and the incoherent clip; numpy FP-exception monitor; '
+             'input-immutability monitor on the wavelength/energy arguments; call sequences re-using one mutable wavelength buffer')
 LEVEL_TEXT = ('Each observed call of the neutron calculators is re-computed by an independent reference (own reader of the embedded '
               'tables, the equations of the neutron_scattering docstring, own interpolation and masses) and all seven outputs are compared '
               'at every wavelength; single atoms and energy-table nodes are swept exhaustively, compounds, densities, wavelengths and '
@@ -36,11 +44,15 @@ ASSUMPTIONS = ['the equations of the neutron_scattering docstring are the specif
                'natural_density= is exercised only for compounds without ions (the ion/natural-mass-ratio defect D10 belongs to C12)',
                'natural Pu and Cm (several isotope rows, no natural row) are in neither the with-data nor the without-data pool',
                'an ion has the neutron data of its element/isotope and the mass less q electrons',
-               'Ra/Ra-226 have tabulated data: with a given density they belong to the "all atoms have neutron data" clause']
+               'Ra/Ra-226 have tabulated data: with a given density they belong to the "all atoms have neutron data" clause',
+               'a call describes the wavelengths its argument holds at the time of the call: a caller may refill or rescale its own '
+               'array/list between calls (the library may not keep a reference to it as a cache key), and no call may modify it']
 
 REL = 1e-10
 _state = {}
 _post = {'calls': 0, 'clip_active': 0, 'fail': []}
+BUFFER_OPS = {'array': ('refill', 'refill', 'scale', 'scale', 'shift', 'item', 'item', 'reverse'),
+              'list': ('refill', 'refill', 'resize', 'scale', 'shift', 'item', 'item', 'reverse', 'append')}
 
 
 # ------------------------------------------------------------------ setup / monitors
@@ -113,6 +125,8 @@ def setup(ctx):
     reach.start()
     _state['reach'] = reach
     _state['fp'] = FPMonitor().start()
+    from ..ref.neutron import ArgumentGuard
+    _state['guard'] = ArgumentGuard.install(nsf)      # after Reach: the counters watch the original code objects
     # ---- atom pools, from the model only
     T = pt.elements
     with_data, no_density, tabled, dataless = [], [], [], []
@@ -286,6 +300,15 @@ def generate(ctx):
                         'form': 'dict'}
                 yield 'compound', _shape(ctx, rng, m, atoms, case, wkinds=('wavelength', 'energy'))
         i += 1
+    # (g) buffer reuse: every energy-dependent entry with an ndarray and with a list, then random compounds
+    for k in _state['tabled']:
+        if ctx.mine(i):
+            for container in ('array', 'list'):
+                yield 'buffer', _buffer_case(ctx, rng, k, container)
+        i += 1
+    for _ in range(ctx.scale(120, 1500)):
+        special = rng.choice(_state['tabled']) if rng.random() < 0.85 else None
+        yield 'buffer', _buffer_case(ctx, rng, special, rng.choice(['array', 'list']))
     # (d) random compounds
     for _ in range(ctx.scale(3000, 25000)):
         atoms = _random_compound(ctx, rng)
@@ -297,6 +320,66 @@ def generate(ctx):
             case['string'] = _render(atoms, rng)
         case['also_sld'] = rng.random() < 0.2
         yield 'compound', _shape(ctx, rng, m, atoms, case)
+
+
+def _buffer_case(ctx, rng, special, container):
+    """One mutable wavelength (or energy) buffer, the calls made with it and the in-place edits between them."""
+    m = _state['model']
+    if special is not None and rng.random() < 0.4:
+        atoms = [[special[0], special[1], _ion_of(rng, special[0]) if rng.random() < 0.15 else 0, 1]]
+    else:
+        atoms = _random_compound(ctx, rng, special=special)
+    plain = len(atoms) == 1 and atoms[0][2] == 0 and atoms[0][3] == 1 and m.atom_density(*atoms[0][:2]) is not None
+    if plain and rng.random() < 0.5:
+        path = rng.choice(['direct', 'direct', 'direct_sld'])
+    else:
+        path = 'neutron_sld' if rng.random() < 0.15 else 'compound'
+    wkind = 'energy' if (path in ('compound', 'neutron_sld') and rng.random() < 0.15) else 'wavelength'
+    n = rng.randint(1, 7)
+
+    def value():
+        w = _wavelengths(ctx, rng, m, atoms)
+        return w if wkind == 'wavelength' else m.energy_factor / w ** 2
+
+    cur = [value() for _ in range(n)]
+    case = {'family': 'buffer', 'atoms': atoms, 'density': _density(rng), 'dkind': 'density', 'path': path,
+            'container': container, 'wkind': wkind, 'start': list(cur), 'steps': [],
+            'form': rng.choice(['dict', 'dict', 'string', 'formula'] + (['atom'] if plain else []))}
+    if case['form'] == 'string':
+        case['string'] = _render(atoms, rng)
+    lo, hi = (0.05, 50.) if wkind == 'wavelength' else (m.energy_factor / 50. ** 2, m.energy_factor / 0.05 ** 2)
+    for _ in range(rng.randint(1, 3)):
+        op = rng.choice(BUFFER_OPS[container])
+        if op == 'scale':
+            a, b = max(0.2, lo / min(cur)), min(5., hi / max(cur))
+            if not a < b:
+                op = 'refill'
+            else:
+                f = float('%.6g' % math.exp(rng.uniform(math.log(a), math.log(b))))
+                cur = [x * f for x in cur]
+                case['steps'].append({'op': 'scale', 'f': f})
+        if op == 'shift':
+            a, b = lo - min(cur), hi - max(cur)
+            d = rng.uniform(a, b) * 0.999
+            cur = [x + d for x in cur]
+            case['steps'].append({'op': 'shift', 'd': d})
+        elif op == 'refill':
+            cur = [value() for _ in cur]
+            case['steps'].append({'op': 'refill', 'values': list(cur)})
+        elif op == 'resize':
+            cur = [value() for _ in range(rng.randint(1, 7))]
+            case['steps'].append({'op': 'resize', 'values': list(cur)})
+        elif op == 'item':
+            j = rng.randrange(len(cur))
+            cur[j] = value()
+            case['steps'].append({'op': 'item', 'j': j, 'value': cur[j]})
+        elif op == 'append':
+            cur.append(value())
+            case['steps'].append({'op': 'append', 'value': cur[-1]})
+        elif op == 'reverse':
+            cur.reverse()
+            case['steps'].append({'op': 'reverse'})
+    return case
 
 
 def _dataless_case(ctx, rng, k, alone):
@@ -390,13 +473,18 @@ def _counts(case):
     return counts
 
 
-def _compare(ctx, got, counts, rho, ws, shape, label, **detail):
-    """Seven outputs at every wavelength against the reference.  Returns the number of disagreements."""
+def _compare(ctx, got, counts, rho, ws, shape, label, sld_only=False, **detail):
+    """Seven outputs at every wavelength against the reference (the three SLDs when *sld_only*: *got* is then
+    the triple returned by neutron_sld / .sld).  Returns the number of disagreements."""
     import numpy as np
     from ..ref.neutron import compare7, flatten7, NAMES
     m = _state['model']
     try:
-        flat = flatten7(got, shape)
+        if sld_only:
+            a, b, c = got
+            flat = [np.broadcast_to(np.asarray(x, dtype=float), shape) for x in (a, b, c)]
+        else:
+            flat = flatten7(got, shape)
     except Exception as exc:
         ctx.evaluated(what='shape')
         ctx.violation('%s: result %r does not have the shape of the wavelength argument %r (%s)'
@@ -406,8 +494,10 @@ def _compare(ctx, got, counts, rho, ws, shape, label, **detail):
     for i, w in enumerate(ws):
         ref, floors = m.reference_with_floors(counts, rho, w)
         obs = [float(x[i]) if shape else float(x) for x in flat]
+        if sld_only:
+            obs = obs + list(ref[3:])
         bad, worst, floor_only = compare7(obs, ref, floors, rel=REL)
-        ctx.evaluated(7, 'outputs')
+        ctx.evaluated(3 if sld_only else 7, 'outputs')
         for j in range(7):
             if worst[j]:
                 ctx.observe('relerr.' + NAMES[j], worst[j])
@@ -430,6 +520,12 @@ def _drain(ctx, label):
         ctx.evaluated(what='postcondition')
         ctx.violation('%s: postcondition of nsf._calculate_scattering failed: %s' % (label, '; '.join(f['what'])),
                       symptom='postcondition', **{k: v for k, v in f.items() if k != 'what'})
+    g = _state.get('guard')
+    while g is not None and g.failures:
+        f = g.failures.pop(0)
+        ctx.evaluated(what='input-immutability')
+        ctx.violation('%s: %s modified its %s argument in place: %s before the call, %s after'
+                      % (label, f['function'], f['argument'], f['before'], f['after']), symptom='mutated-argument', **f)
 
 
 def _is_none_triple(r):
@@ -612,6 +708,108 @@ def check_table(ctx, case):
     _drain(ctx, label)
 
 
+def _mutate(buf, step):
+    """Apply one in-place edit to the caller's buffer (the SAME object is passed to the next call)."""
+    op = step['op']
+    is_list = isinstance(buf, list)
+    if op in ('refill', 'resize'):
+        buf[:] = step['values']
+    elif op == 'scale':
+        if is_list:
+            for j in range(len(buf)):
+                buf[j] = buf[j] * step['f']
+        else:
+            buf *= step['f']
+    elif op == 'shift':
+        if is_list:
+            for j in range(len(buf)):
+                buf[j] = buf[j] + step['d']
+        else:
+            buf += step['d']
+    elif op == 'item':
+        buf[step['j']] = step['value']
+    elif op == 'append':
+        buf.append(step['value'])
+    elif op == 'reverse':
+        if is_list:
+            buf.reverse()
+        else:
+            buf[:] = buf[::-1].copy()
+    else:
+        raise ValueError('unknown buffer operation %r' % (op,))
+
+
+def check_buffer(ctx, case):
+    """Consecutive calls with ONE mutable wavelength/energy object that the caller edits in place between the
+    calls: every call must describe the values the object holds when the call is made.  No other library call
+    happens between two steps (the oracle is the reference model)."""
+    import numpy as np
+    import periodictable as pt
+    m = _state['model']
+    atoms = case['atoms']
+    counts = _counts(case)
+    probe = dict(case, wkind='default')
+    compound, kw0, _ws, _shape_ = _call_args(probe)
+    path, container, wkind = case['path'], case['container'], case.get('wkind', 'wavelength')
+    at = _lib_atom(*atoms[0][:3])
+    rho = m.atom_density(*atoms[0][:2]) if path.startswith('direct') else case['density']
+    if path == 'compound':
+        def call(arg):
+            return pt.neutron_scattering(compound, **dict(kw0, **{wkind: arg}))
+    elif path == 'neutron_sld':
+        def call(arg):
+            return pt.neutron_sld(compound, **dict(kw0, **{wkind: arg}))
+    elif path == 'direct':
+        def call(arg):
+            return at.neutron.scattering(wavelength=arg)
+    else:
+        def call(arg):
+            return at.neutron.sld(wavelength=arg)
+    sld_only = path in ('neutron_sld', 'direct_sld')
+    name = case.get('string') or ' '.join('%s%s%s:%g' % (m.symbol[Z], '[%d]' % A if A else '', '{%+d}' % q if q else '', n)
+                                          for Z, A, q, n in atoms)
+    has_table = any(m.has_table(Z, A) for Z, A, _q, _n in atoms)
+    detail = {'family': 'buffer', 'has_table_atom': has_table, 'container': container, 'path': path,
+              'contains_eu151': any((Z, A) == (63, 151) for Z, A, _q, _n in atoms), 'no_density_atoms': []}
+    for Z, A, _q, _n in atoms:
+        if m.has_table(Z, A):
+            ctx.count('energy_dependent_entry_seen.%s%s' % (m.symbol[Z], A or ''))
+    ctx.distinct_case(('buffer', tuple(sorted((Z, A, q) for Z, A, q, _n in atoms)), container, path, wkind,
+                       tuple(s['op'] for s in case['steps'])))
+    buf = list(case['start']) if container == 'list' else np.array(case['start'], dtype=float)
+    history = 'fresh %s' % container
+    nbad = 0
+    for k, step in enumerate([None] + list(case['steps'])):
+        if step is not None:
+            _mutate(buf, step)
+            history = '%s edited in place (%s) after %d call(s) with the same object' % (container, step['op'], k)
+            ctx.count('buffer.op.' + step['op'])
+            if has_table and wkind == 'wavelength':
+                ctx.count('buffer.reuse_with_table_atom.' + container)
+        vals = [float(x) for x in buf]
+        ws = vals if wkind == 'wavelength' else [m.wavelength_of_energy(e) for e in vals]
+        got = call(buf)
+        ctx.count('buffer.calls')
+        label = '%s(%s, density=%r, %s=<%s>) [call %d: %s; values %s]' % (path, name[:100], rho, wkind, container, k + 1,
+                                                                          history, ', '.join('%.6g' % v for v in vals))
+        if _is_none_triple(got) or (sld_only and got is None):
+            ctx.evaluated(what='none-triple')
+            ctx.violation('%s returned None although every atom has tabulated neutron data' % label, symptom='none', **detail)
+            break
+        nbad += _compare(ctx, got, counts, rho, ws, (len(ws),), label, sld_only=sld_only, step=k, **detail)
+        if nbad:
+            break
+    else:
+        # the same values as a fresh array: must be the same numbers again
+        vals = [float(x) for x in buf]
+        ws = vals if wkind == 'wavelength' else [m.wavelength_of_energy(e) for e in vals]
+        got = call(np.array(vals))
+        _compare(ctx, got, counts, rho, ws, (len(ws),), '%s(%s, density=%r, %s=<fresh array of the last buffer values %s>)'
+                 % (path, name[:100], rho, wkind, ', '.join('%.6g' % v for v in vals)), sld_only=sld_only,
+                 step='fresh', **detail)
+    _drain(ctx, 'buffer reuse %s' % name[:100])
+
+
 def check_dataless(ctx, case):
     import periodictable as pt
     m = _state['model']
@@ -628,7 +826,8 @@ def check_dataless(ctx, case):
     _drain(ctx, 'dataless')
 
 
-CHECKS = {'compound': check_compound, 'direct': check_direct, 'table': check_table, 'dataless': check_dataless}
+CHECKS = {'compound': check_compound, 'direct': check_direct, 'table': check_table, 'dataless': check_dataless,
+          'buffer': check_buffer}
 
 
 def finish(ctx):
@@ -640,6 +839,13 @@ def finish(ctx):
     if fp is not None:
         fp.stop()
         fp.export(ctx)
+    g = _state.get('guard')
+    if g is not None:
+        ctx.count('immutability.evaluations', g.evaluations)
+        for name, n in g.by_function.items():
+            ctx.count('immutability.' + name, n)
+        g.evaluations = 0
+        g.by_function.clear()
     ctx.count('postcondition.evaluations', _post['calls'])
     ctx.count('postcondition.clip_active', _post['clip_active'])
     _post['calls'] = _post['clip_active'] = 0
@@ -657,6 +863,10 @@ def finish(ctx):
     ctx.require('reach.neutron_scattering', 1, 'neutron_scattering entered')
     ctx.require('reach.Neutron.scattering', 1, 'Neutron.scattering entered')
     ctx.require('dataless_compounds', 1, 'compounds with a data-less atom exercised')
+    ctx.require('immutability.evaluations', 1, 'the input-immutability monitor must have compared a mutable argument')
+    for container in ('array', 'list'):
+        ctx.require('buffer.reuse_with_table_atom.' + container, 1,
+                    'a call re-using an in-place edited %s wavelength buffer with an energy-dependent atom' % container)
 
 
 def classify(rec):
